@@ -43,6 +43,7 @@ type SpecEnv struct {
 	inOld bool
 	ctxDone map[string]T
 	calleeFn *ssa.Function // when evaluating a callee's contract at a call site
+	calleeGhost map[string]T // callee-activation ghost state (counters, recorded args) as existential constants
 }
 
 func (u *Unit) newEnv(st *State) *SpecEnv {
@@ -131,7 +132,16 @@ func (u *Unit) evalSE(env *SpecEnv, se SE) SV {
 				tv := u.evalSE(&n, tr)
 				ps = append(ps, u.lower(env.st, tv.V, tv.Typ).S)
 			}
-			return SV{V: T{fmt.Sprintf("(%s (%s) (! %s :pattern (%s)))", q, strings.Join(decl, " "), body.S, strings.Join(ps, " ")), SBool}}
+			pats := ":pattern (" + strings.Join(ps, " ") + ")"
+			for _, g := range x.AltTriggers {
+				var gs []string
+				for _, tr := range g {
+					tv := u.evalSE(&n, tr)
+					gs = append(gs, u.lower(env.st, tv.V, tv.Typ).S)
+				}
+				pats += " :pattern (" + strings.Join(gs, " ") + ")"
+			}
+			return SV{V: T{fmt.Sprintf("(%s (%s) (! %s %s))", q, strings.Join(decl, " "), body.S, pats), SBool}}
 		}
 		return SV{V: T{fmt.Sprintf("(%s (%s) %s)", q, strings.Join(decl, " "), body.S), SBool}}
 	case *SEGo:
@@ -160,6 +170,8 @@ func (u *Unit) qvarSort(s string) (Sort, types.Type) {
 		return SBool, types.Typ[types.Bool]
 	case "ref", "type", "fn":
 		return SInt, nil
+	case "strmap_int", "strmap_str", "strset", "strrel":
+		return specSort(s), nil
 	case "iface", "any":
 		return SIface, types.NewInterfaceType(nil, nil)
 	}
@@ -365,8 +377,12 @@ func (u *Unit) evalIdent(env *SpecEnv, name string) SV {
 		}
 	}
 	// a local of the function that is not in scope on this path: unconstrained
-	if t := u.localType(name); t != nil {
-		return SV{V: u.freshOfType(env.st, "outofscope."+name, t), Typ: t}
+	base := name
+	if i := strings.Index(name, "__"); i > 0 {
+		base = name[:i]
+	}
+	if t := u.localType(base); t != nil {
+		return SV{V: u.freshOfType(env.st, "outofscope."+base, t), Typ: t}
 	}
 	if env.calleeFn != nil {
 		// a local of the callee mentioned in its postcondition: existential
@@ -734,10 +750,32 @@ func (u *Unit) evalCall(env *SpecEnv, x *ast.CallExpr) SV {
 	case "ite":
 		c, a, b := argT(0), arg(1), arg(2)
 		return SV{V: Ite(c, u.lower(env.st, a.V, a.Typ), u.lower(env.st, b.V, b.Typ)), Typ: a.Typ}
+	case "ofcall":
+		// ofcall(ev, e): evaluate e over the ghost state (event counters,
+		// recorded arguments) of the callee activation of the last call
+		// matched by event ev
+		id, ok := x.Args[0].(*ast.Ident)
+		if !ok {
+			return env.fail("ofcall(ev, expr)")
+		}
+		g := env.st.calleeGhosts[id.Name]
+		if g == nil {
+			g = map[string]T{}
+		}
+		n := *env
+		n.calleeGhost = g
+		return u.evalExpr(&n, x.Args[1])
 	case "cnt":
 		id, ok := x.Args[0].(*ast.Ident)
 		if !ok {
 			return env.fail("cnt(name) expects an event name")
+		}
+		if env.calleeGhost != nil {
+			if len(x.Args) == 2 {
+				return SV{V: Select(u.calleeGhostVal(env, "cntk!"+id.Name, ArrSort(argT(1).Sort, SInt)), argT(1)), Typ: intT}
+			}
+			c := u.calleeGhostVal(env, "cnt!"+id.Name, SInt)
+			return SV{V: c, Typ: intT}
 		}
 		if len(x.Args) == 2 {
 			k := argT(1)
@@ -755,6 +793,26 @@ func (u *Unit) evalCall(env *SpecEnv, x *ast.CallExpr) SV {
 	case "lastarg":
 		id, _ := x.Args[0].(*ast.Ident)
 		n, _ := strconv.Atoi(x.Args[1].(*ast.BasicLit).Value)
+		if id != nil && env.calleeGhost != nil {
+			srt := SInt
+			var typ types.Type
+			if len(x.Args) == 3 {
+				if sid, ok := x.Args[2].(*ast.Ident); ok {
+					switch sid.Name {
+					case "Iface", "String", "Bool", "Int", "Slice":
+						srt = specSort(sid.Name)
+					default:
+						typ = u.resolveType(env, x.Args[2])
+					}
+				} else {
+					typ = u.resolveType(env, x.Args[2])
+				}
+			}
+			if typ != nil {
+				srt = u.sortOf(typ)
+			}
+			return SV{V: u.calleeGhostVal(env, fmt.Sprintf("lastarg!%s!%d", id.Name, n), srt), Typ: typ}
+		}
 		if id != nil {
 			if as, ok := env.st.lastArgs[id.Name]; ok && n < len(as) {
 				return SV{V: as[n], Typ: env.u.lastArgType(id.Name, n)}
@@ -779,6 +837,15 @@ func (u *Unit) evalCall(env *SpecEnv, x *ast.CallExpr) SV {
 		return SV{V: u.fresh("noarg", srt)}
 	case "lastres":
 		id, _ := x.Args[0].(*ast.Ident)
+		if id != nil && env.calleeGhost != nil {
+			srt := SInt
+			if len(x.Args) == 2 {
+				if sid, ok := x.Args[1].(*ast.Ident); ok {
+					srt = specSort(sid.Name)
+				}
+			}
+			return SV{V: u.calleeGhostVal(env, "lastres!"+id.Name, srt)}
+		}
 		if id != nil {
 			if v, ok := env.st.lastRes[id.Name]; ok && v != nil {
 				return SV{V: v}
@@ -787,6 +854,34 @@ func (u *Unit) evalCall(env *SpecEnv, x *ast.CallExpr) SV {
 		srt := SInt
 		if len(x.Args) == 2 {
 			if sid, ok := x.Args[1].(*ast.Ident); ok {
+				srt = specSort(sid.Name)
+			}
+		}
+		return SV{V: u.fresh("nores", srt)}
+	case "lastresi":
+		// lastresi(ev, i, Sort): component i of the (tuple) result of the last call
+		id, _ := x.Args[0].(*ast.Ident)
+		bl, _ := x.Args[1].(*ast.BasicLit)
+		if id != nil && bl != nil && env.calleeGhost != nil {
+			srt := SInt
+			if len(x.Args) == 3 {
+				if sid, ok := x.Args[2].(*ast.Ident); ok {
+					srt = specSort(sid.Name)
+				}
+			}
+			return SV{V: u.calleeGhostVal(env, "lastresi!"+id.Name+"!"+bl.Value, srt)}
+		}
+		if id != nil && bl != nil {
+			n, _ := strconv.Atoi(bl.Value)
+			if v, ok := env.st.lastRes[id.Name]; ok {
+				if tp, ok := v.(Tuple); ok && n < len(tp) {
+					return SV{V: tp[n]}
+				}
+			}
+		}
+		srt := SInt
+		if len(x.Args) == 3 {
+			if sid, ok := x.Args[2].(*ast.Ident); ok {
 				srt = specSort(sid.Name)
 			}
 		}
@@ -926,6 +1021,44 @@ func (u *Unit) evalCall(env *SpecEnv, x *ast.CallExpr) SV {
 		q := fmt.Sprintf("(forall ((q!seqi Int)) (! (=> (and (<= 0 q!seqi) (< q!seqi (slen %s))) (= %s %s)) :pattern (%s) :pattern (%s)))", sa.S, ea.S, eb.S, ea.S, eb.S)
 		return SV{V: And(Eq(app(SInt, "slen", sa), app(SInt, "slen", sb)), T{q, SBool}), Typ: boolT}
 	}
+	if name == "arrayOf" && len(x.Args) >= 2 {
+		// arrayOf(DEF, keysort, args...): the array A with A[k] == DEF(args..., k)
+		// (an array comprehension: one constant per distinct defining term)
+		did, _ := x.Args[0].(*ast.Ident)
+		kid, _ := x.Args[1].(*ast.Ident)
+		if did == nil || kid == nil {
+			return env.fail("arrayOf(DEF, keysort, args...)")
+		}
+		d, ok := u.eng.spec.Defs[did.Name]
+		if !ok || len(d.Params) != len(x.Args)-1 {
+			return env.fail("arrayOf: %s must be a def with %d parameters", did.Name, len(x.Args)-1)
+		}
+		ks, kt := u.qvarSort(kid.Name)
+		n := *env
+		n.names = map[string]SV{}
+		for k, v := range env.names {
+			n.names[k] = v
+		}
+		for i := 2; i < len(x.Args); i++ {
+			n.names[d.Params[i-2]] = arg(i)
+		}
+		kv := T{"q!ak", ks}
+		n.names[d.Params[len(d.Params)-1]] = SV{V: kv, Typ: kt}
+		n.bound = map[string]SV{}
+		for k, v := range env.bound {
+			n.bound[k] = v
+		}
+		body := u.evalSE(&n, d.Body)
+		bt := u.lower(env.st, body.V, body.Typ)
+		key := "arrayOf:" + did.Name + ":" + bt.S
+		if c, ok := u.arrayOfCache[key]; ok {
+			return SV{V: c}
+		}
+		c := u.fresh("arr."+did.Name, ArrSort(ks, bt.Sort))
+		u.decls.Add("def:"+c.S, fmt.Sprintf("(assert (forall ((q!ak %s)) (! (= (select %s q!ak) %s) :pattern ((select %s q!ak)))))", ks, c.S, bt.S, c.S))
+		u.arrayOfCache[key] = c
+		return SV{V: c}
+	}
 	// ghost heaps: NAME(key)
 	if gh, ok := u.eng.spec.GhostHeaps[name]; ok && len(x.Args) == 1 {
 		k := argT(0)
@@ -940,6 +1073,18 @@ func (u *Unit) evalCall(env *SpecEnv, x *ast.CallExpr) SV {
 			return env.fail("nth(ev, k, i)")
 		}
 		key := "seq!" + id.Name + "!" + bl.Value
+		if env.calleeGhost != nil {
+			srt := SInt
+			nn, _ := strconv.Atoi(bl.Value)
+			for _, ev := range u.eng.spec.Events {
+				if ev.Name == id.Name && ev.Record {
+					if s2, ok := ev.RecordArgs[nn]; ok {
+						srt = s2
+					}
+				}
+			}
+			return SV{V: Select(u.calleeGhostVal(env, key, ArrSort(SInt, srt)), argT(1))}
+		}
 		arr, ok := env.cnt[key]
 		if !ok {
 			srt := SInt
@@ -1104,4 +1249,18 @@ func (u *Unit) ownedExpr(env *SpecEnv, c *Clause) (SV, bool) {
 		return SV{}, false
 	}
 	return u.evalExpr(env, call.Args[0]), true
+}
+
+// calleeGhostVal: an existential constant standing for a piece of the callee
+// activation's ghost state (consistent within one call's contract).
+func (u *Unit) calleeGhostVal(env *SpecEnv, key string, srt Sort) T {
+	if v, ok := env.calleeGhost[key]; ok {
+		return v
+	}
+	v := u.fresh("callee."+key, srt)
+	if strings.HasPrefix(key, "cnt!") {
+		env.st.assume(Le(IntLit(0), v))
+	}
+	env.calleeGhost[key] = v
+	return v
 }
